@@ -64,3 +64,107 @@ pub(crate) fn trace_write(file: &str) {
 pub fn drain_trace() -> Vec<String> {
     TRACE.with(|t| std::mem::take(&mut t.borrow_mut().1))
 }
+
+// ---- fine io-trace: one event per `VarFile` primitive (a call into the buffered file).
+//
+// Off by default (thread-local switch), so the coarse trace above is unchanged.
+// Events: `<file>:s:<target>` seek (the position the seek arrived at),
+// `<file>:r:<pos>:<len>:<method>` read, `<file>:w:<pos>:<len>:<method>` write (`pos`: position before the call;
+// `method`: the method of the buffered file that serves the call, e.g. `read_u8`, `read_exact_maybeslice`, `write`),
+// `<file>:l:<len>` set_len, `<file>:f` flush, `<file>:S` sync_all, `<file>:D` sync_data,
+// `<file>:F` read_fill_buffer, `<file>:c` clear.
+//
+// The position is a shadow kept here per buffered file (keyed by its address): it is made
+// exact by every seek and advanced by every read/write.  The buffered file is never asked:
+// its only position query is `seek(Current(0))`, which EXTENDS the file when the position
+// lies beyond the end (e.g. after a read at the end of the file).
+thread_local! {
+    static IO_ON: std::cell::Cell<bool> = const { std::cell::Cell::new(false) };
+    static IO_LOG: RefCell<Vec<String>> = const { RefCell::new(Vec::new()) };
+    static IO_POS: RefCell<std::collections::BTreeMap<usize, u64>> =
+        const { RefCell::new(std::collections::BTreeMap::new()) };
+}
+
+/// switches the fine io-trace of this thread on or off (the shadow positions are forgotten).
+pub fn io_trace_enable(on: bool) {
+    IO_ON.with(|c| c.set(on));
+    IO_POS.with(|p| p.borrow_mut().clear());
+}
+
+/// is the fine io-trace of this thread on?
+#[inline]
+pub fn io_on() -> bool {
+    IO_ON.with(|c| c.get())
+}
+
+/// returns and clears the fine io-trace of this thread.
+pub fn drain_io_trace() -> Vec<String> {
+    IO_LOG.with(|t| std::mem::take(&mut *t.borrow_mut()))
+}
+
+/// a seek of the buffered file `id` arrived at `new_pos` (`None`: it failed).
+pub(crate) fn io_seek(file: &str, id: usize, new_pos: Option<u64>) {
+    if !io_on() {
+        return;
+    }
+    match new_pos {
+        Some(p) => {
+            IO_POS.with(|m| m.borrow_mut().insert(id, p));
+            IO_LOG.with(|t| t.borrow_mut().push(format!("{file}:s:{p}")));
+        }
+        None => {
+            IO_POS.with(|m| m.borrow_mut().remove(&id));
+            IO_LOG.with(|t| t.borrow_mut().push(format!("{file}:s:!")));
+        }
+    }
+}
+
+/// a read (`kind` 'r') or write ('w') of `len` bytes at the current position of file `id`.
+pub(crate) fn io_rw(file: &str, id: usize, kind: char, len: u64, method: &str) {
+    if !io_on() {
+        return;
+    }
+    let pos = IO_POS.with(|m| {
+        let mut m = m.borrow_mut();
+        match m.get_mut(&id) {
+            Some(p) => {
+                let before = *p;
+                *p += len;
+                Some(before)
+            }
+            None => None,
+        }
+    });
+    let ev = match pos {
+        Some(p) => format!("{file}:{kind}:{p}:{len}:{method}"),
+        None => format!("{file}:{kind}:?:{len}:{method}"),
+    };
+    IO_LOG.with(|t| t.borrow_mut().push(ev));
+}
+
+/// set_len of file `id`: the buffered file pulls its position back to a smaller new end.
+pub(crate) fn io_set_len(file: &str, id: usize, len: u64) {
+    if !io_on() {
+        return;
+    }
+    IO_POS.with(|m| {
+        if let Some(p) = m.borrow_mut().get_mut(&id) {
+            if *p > len {
+                *p = len;
+            }
+        }
+    });
+    IO_LOG.with(|t| t.borrow_mut().push(format!("{file}:l:{len}")));
+}
+
+/// an event without position: 'f' flush, 'S' sync_all, 'D' sync_data, 'F' fill, 'c' clear.
+/// (`read_fill_buffer` moves the position: the shadow of file `id` is forgotten.)
+pub(crate) fn io_mark(file: &str, id: usize, kind: char) {
+    if !io_on() {
+        return;
+    }
+    if kind == 'F' {
+        IO_POS.with(|m| m.borrow_mut().remove(&id));
+    }
+    IO_LOG.with(|t| t.borrow_mut().push(format!("{file}:{kind}")));
+}
